@@ -11,7 +11,7 @@ def run(ctx):
           ("c09_b", dict(MaxPub=2, MaxSubOps=2, SubQoS="{1, 2}", PubQoS="{0}", EnUnsub="FALSE", Adversaries='{"n1"}'), None)]
     if not q:
         mc.append(("c09_c", dict(MaxPub=5, MaxSubOps=2, SubQoS="{1, 2}", PubQoS="{0, 1}", EnUnsub="FALSE"), None))
-    gen = [("c09_g", dict(Nets='{"n1", "n2", "n3"}', SubQoS="{1, 2}", PubQoS="{0, 1}", Subscribers='{"n1", "n3"}', Adversaries='{"n3"}',
+    gen = [("c09_g", dict(Nets='{"n1", "n2", "n3"}', SubQoS="{1, 2}", PubQoS="{0, 1}", PubRetain="{TRUE, FALSE}", Subscribers='{"n1", "n3"}', Adversaries='{"n3"}',
                           MaxPub=12, MaxSubOps=4, MaxCloses=1, EnUnsub="FALSE"),
             dict(Topics="MCTopics3", Filters="MCFilters3", MatchRel="MCMatch3"), 600 if q else 6000, 50)]
     rc.run_router_property(ctx, "C09", mc, gen, INV, act=ACT, trace_act=["AckClosesOnlyThatT"])
